@@ -1,10 +1,10 @@
 (* C06 (monotone in the window), stated about the translated code: in the arrays the translated stages leave for a file of
    a successful model run, looked up by labels through the translated reader, the covered count of a gene, group and
-   side never decreases from a window to a larger one. (Shift and mirror relate two different inputs and are proved for
-   the model's cells in Props/C06.v; they transfer through the same bridge, Props/CodeCell.v.) *)
+   side never decreases from a window to a larger one. Shift and mirror relate the runs on two different inputs; they transfer through the same bridge, Props/CodeCell.v
+   (c06_code_shift, c06_code_mirror below). *)
 From Coq Require Import ZArith NArith List Bool Lia.
 From TEV Require Import Base.Intervals Model.Pipeline Spec.Density Model.MergeArr
-     Proofs.NameSort Proofs.Refine Proofs.RunP Proofs.Keys Proofs.C01P Proofs.C06P Props.C01merge Props.CodeCell.
+     Proofs.NameSort Proofs.Refine Proofs.RunP Proofs.Keys Proofs.C01P Proofs.C06P Proofs.RenameP Props.C01merge Props.CodeCell.
 Import ListNotations.
 
 Theorem c06_code_monotone : forall rS rO rT first delta last genes tes fs f order lv n sd w w' g,
@@ -30,4 +30,97 @@ Proof.
   split; [exact Hnb|]. intros _. destruct (names_ok_col rS rO rT lv tes Hnm) as [Hb Hall']. split; [exact Hb|apply on_chr_forall; exact Hall'].
 Qed.
 
+
+(* C06, shift invariance, about the translated code: the pipeline run on an annotation pair and on the same pair with every
+   coordinate moved by k (both well formed, hence within the coordinate range the inputs live in). For a gene, a group that is on
+   the axis in both runs, a side and a window of the configuration - the left window truncated in neither version - the cell the
+   translated stages compute for the shifted pair and the translated lookup finds under the same labels is the cell of the original. *)
+Lemma on_chr_shift c k tes : on_chr c (map (shift_te k) tes) = map (shift_te k) (on_chr c tes).
+Proof. unfold on_chr, keyed. apply filter_map_comm. intro t. reflexivity. Qed.
+
+Theorem c06_code_shift : forall rS rO rT first delta last genes tes k fs fs' f f' order order' lv n sd w g,
+  wf_input rS rO rT genes tes -> wf_input rS rO rT (map (shift_gene k) genes) (map (shift_te k) tes) ->
+  (0 <= first)%Z -> (0 < delta)%Z ->
+  run rS rO rT first delta last genes tes = inr fs ->
+  run rS rO rT first delta last (map (shift_gene k) genes) (map (shift_te k) tes) = inr fs' ->
+  In f fs -> In f' fs' -> f_chr f' = f_chr f ->
+  (forall ls, In ls six -> In ls order) -> (forall ls, In ls six -> In ls order') ->
+  In g genes -> g_chr g = f_chr f -> In n (f_names f lv) -> In n (f_names f' lv) -> n <> bookkeeping rS rO lv ->
+  In w (f_windows f) -> (sd = SL -> untruncated g w /\ untruncated (shift_gene k g) w) ->
+  exists log log', code_arrays f order = Some log /\ code_arrays f' order' = Some log' /\
+    code_cell f' log' lv n sd w (g_name g) = code_cell f log lv n sd w (g_name g).
+Proof.
+  intros rS rO rT first delta last genes tes k fs fs' f f' order order' lv n sd w g Hwf Hwf' Hf Hd Hrun Hrun' Hin Hin' Hchr Hall Hall'
+         Hg Hgc Hn Hn' Hnb Hw Hun.
+  destruct (code_arrays_cells rS rO rT first delta last genes tes fs f order Hf Hd Hrun Hin Hall) as [log [Ha Hc]].
+  destruct (code_arrays_cells rS rO rT first delta last _ _ fs' f' order' Hf Hd Hrun' Hin' Hall') as [log' [Ha' Hc']].
+  exists log, log'. split; [exact Ha|]. split; [exact Ha'|]. rewrite Hc, Hc'.
+  destruct (run_file _ _ _ _ _ _ _ _ _ _ Hrun Hin) as [ws [Hws [_ [_ [Hwin [Hr _]]]]]].
+  destruct (run_file _ _ _ _ _ _ _ _ _ _ Hrun' Hin') as [ws' [Hws' [_ [_ [Hwin' [Hr' _]]]]]].
+  assert (Eww : ws' = ws) by (rewrite Hws in Hws'; inversion Hws'; reflexivity).
+  rewrite (keys rS rO rT first delta last genes tes fs f lv n sd w g Hrun Hin Hg Hgc Hn (or_intror Hw)).
+  assert (Hg' : In (shift_gene k g) (map (shift_gene k) genes)) by (apply in_map; exact Hg).
+  assert (Hgc' : g_chr (shift_gene k g) = f_chr f') by (rewrite Hchr; exact Hgc).
+  assert (Hw' : In w (f_windows f')) by (rewrite Hwin', Eww, <- Hwin; exact Hw).
+  pose proof (keys rS rO rT first delta last _ _ fs' f' lv n sd w (shift_gene k g) Hrun' Hin' Hg' Hgc' Hn' (or_intror Hw')) as K'.
+  cbn [shift_gene g_name] in K'. rewrite K'. f_equal.
+  rewrite Hr, Hr', Hchr, on_chr_shift.
+  destruct Hwf as [Hwg [Hwt Hnm]]. destruct Hwf' as [Hwg' [Hwt' _]].
+  apply cell_shift.
+  - apply on_chr_forall; exact Hwt.
+  - rewrite <- on_chr_shift. apply on_chr_forall; exact Hwt'.
+  - rewrite Forall_forall in Hwg; apply Hwg; exact Hg.
+  - rewrite Forall_forall in Hwg'; apply Hwg'; exact Hg'.
+  - rewrite Hwin in Hw. exact (window_nonneg first delta last ws w Hf Hd Hws Hw).
+  - split; [exact Hnb|]. intros _. destruct (names_ok_col rS rO rT lv tes Hnm) as [Hb Hall0]. split; [exact Hb | apply on_chr_forall; exact Hall0].
+  - exact Hun.
+Qed.
+
+
+(* C06, mirror symmetry, about the translated code: the pair reflected about a point M (both versions well formed): the cell the
+   translated stages compute for the reflected pair on the OTHER side is the cell of the original; intragenic cells are kept *)
+Lemma on_chr_mirror c M tes : on_chr c (map (mirror_te M) tes) = map (mirror_te M) (on_chr c tes).
+Proof. unfold on_chr, keyed. apply filter_map_comm. intro t. reflexivity. Qed.
+
+Theorem c06_code_mirror : forall rS rO rT first delta last genes tes M fs fs' f f' order order' lv n sd w g,
+  wf_input rS rO rT genes tes -> wf_input rS rO rT (map (mirror_gene M) genes) (map (mirror_te M) tes) ->
+  (0 <= first)%Z -> (0 < delta)%Z ->
+  run rS rO rT first delta last genes tes = inr fs ->
+  run rS rO rT first delta last (map (mirror_gene M) genes) (map (mirror_te M) tes) = inr fs' ->
+  In f fs -> In f' fs' -> f_chr f' = f_chr f ->
+  (forall ls, In ls six -> In ls order) -> (forall ls, In ls six -> In ls order') ->
+  In g genes -> g_chr g = f_chr f -> In n (f_names f lv) -> In n (f_names f' lv) -> n <> bookkeeping rS rO lv ->
+  In w (f_windows f) -> (sd = SL -> untruncated g w) -> (sd = SR -> untruncated (mirror_gene M g) w) ->
+  exists log log', code_arrays f order = Some log /\ code_arrays f' order' = Some log' /\
+    code_cell f' log' lv n (flip sd) w (g_name g) = code_cell f log lv n sd w (g_name g).
+Proof.
+  intros rS rO rT first delta last genes tes M fs fs' f f' order order' lv n sd w g Hwf Hwf' Hf Hd Hrun Hrun' Hin Hin' Hchr Hall Hall'
+         Hg Hgc Hn Hn' Hnb Hw HunL HunR.
+  destruct (code_arrays_cells rS rO rT first delta last genes tes fs f order Hf Hd Hrun Hin Hall) as [log [Ha Hc]].
+  destruct (code_arrays_cells rS rO rT first delta last _ _ fs' f' order' Hf Hd Hrun' Hin' Hall') as [log' [Ha' Hc']].
+  exists log, log'. split; [exact Ha|]. split; [exact Ha'|]. rewrite Hc, Hc'.
+  destruct (run_file _ _ _ _ _ _ _ _ _ _ Hrun Hin) as [ws [Hws [_ [_ [Hwin [Hr _]]]]]].
+  destruct (run_file _ _ _ _ _ _ _ _ _ _ Hrun' Hin') as [ws' [Hws' [_ [_ [Hwin' [Hr' _]]]]]].
+  assert (Eww : ws' = ws) by (rewrite Hws in Hws'; inversion Hws'; reflexivity).
+  rewrite (keys rS rO rT first delta last genes tes fs f lv n sd w g Hrun Hin Hg Hgc Hn (or_intror Hw)).
+  assert (Hg' : In (mirror_gene M g) (map (mirror_gene M) genes)) by (apply in_map; exact Hg).
+  assert (Hgc' : g_chr (mirror_gene M g) = f_chr f') by (rewrite Hchr; exact Hgc).
+  assert (Hw' : In w (f_windows f')) by (rewrite Hwin', Eww, <- Hwin; exact Hw).
+  pose proof (keys rS rO rT first delta last _ _ fs' f' lv n (flip sd) w (mirror_gene M g) Hrun' Hin' Hg' Hgc' Hn' (or_intror Hw')) as K'.
+  cbn [mirror_gene g_name] in K'. rewrite K'. f_equal.
+  rewrite Hr, Hr', Hchr, on_chr_mirror.
+  destruct Hwf as [Hwg [Hwt Hnm]]. destruct Hwf' as [Hwg' [Hwt' _]].
+  apply cell_mirror.
+  - apply on_chr_forall; exact Hwt.
+  - rewrite <- on_chr_mirror. apply on_chr_forall; exact Hwt'.
+  - rewrite Forall_forall in Hwg; apply Hwg; exact Hg.
+  - rewrite Forall_forall in Hwg'; apply Hwg'; exact Hg'.
+  - rewrite Hwin in Hw. exact (window_nonneg first delta last ws w Hf Hd Hws Hw).
+  - split; [exact Hnb|]. intros _. destruct (names_ok_col rS rO rT lv tes Hnm) as [Hb Hall0]. split; [exact Hb | apply on_chr_forall; exact Hall0].
+  - exact HunL.
+  - exact HunR.
+Qed.
+
 Print Assumptions c06_code_monotone.
+Print Assumptions c06_code_shift.
+Print Assumptions c06_code_mirror.
